@@ -9,34 +9,34 @@ _DISK_RULE = (
 )
 
 PROPS = {
-    "C01": dict(engine="disk", level="exploration", quick=4000, thorough=200000, rule=_DISK_RULE,
+    "C01": dict(engine="disk", level="exploration", quick=20000, thorough=200000, rule=_DISK_RULE,
                 expected_probes=["qcow2.l2_tables_gt_128", "qcow2.v2_header_without_v3_fields", "qcow2.extended_l2",
                                  "qcow2.external_data_file", "qcow2.compressed_clusters", "qcow2.compressed_host_offset_ge_4GiB",
                                  "qcow2.compressed_offset_unaligned", "qcow2.data_host_offset_ge_4GiB", "qcow2.data_host_offset_ge_1TiB",
                                  "qcow2.backing_shorter_than_image", "qcow2.run_crosses_l2_boundary", "qcow2.unit_zero", "qcow2.unit_zalloc"],
                 assumptions=["QCOW2 layout per qemu docs/interop/qcow2.txt (no fixture in the repo); refcount structures are placeholders"]),
-    "C02": dict(engine="disk", level="exploration", quick=4000, thorough=200000, rule=_DISK_RULE,
+    "C02": dict(engine="disk", level="exploration", quick=20000, thorough=200000, rule=_DISK_RULE,
                 expected_probes=["vmdk.kind_hosted", "vmdk.kind_stream", "vmdk.kind_cowd", "vmdk.kind_sesparse", "vmdk.kind_flat",
                                  "vmdk.gd_in_footer", "vmdk.gd_entries_gt_128", "vmdk.capacity_not_multiple_of_16_sectors",
                                  "vmdk.adjacent_grains_merged", "vmdk.zero_grain"],
                 assumptions=["hosted sparse / stream-optimised / COWD layouts per VMware Virtual Disk Format 1.1 and QEMU vmdk.c (no fixture); SE-sparse stub anchored on tests/data/sesparse.vmdk"]),
-    "C03": dict(engine="disk", level="exploration", quick=3000, thorough=150000, rule=_DISK_RULE,
+    "C03": dict(engine="disk", level="exploration", quick=8000, thorough=150000, rule=_DISK_RULE,
                 expected_probes=["vhdx.sb_entries_interleaved", "vhdx.sector_4096", "vhdx.blocks_out_of_order",
                                  "vhdx.read_starts_midblock_crosses_block", "vhdx.state_2", "vhdx.state_6"],
                 assumptions=["VHDX layout per [MS-VHDX]; stub anchored on tests/data/dynamic.vhdx (CRC-32C of header and region table reproduced)"]),
-    "C04": dict(engine="disk", level="exploration", quick=5000, thorough=300000, rule=_DISK_RULE,
+    "C04": dict(engine="disk", level="exploration", quick=20000, thorough=300000, rule=_DISK_RULE,
                 expected_probes=["vhd.footer_511", "vhd.fixed", "vhd.size_not_multiple_of_block", "vhd.blocks_out_of_order"],
                 assumptions=["VHD layout per the Microsoft VHD specification 1.0; stub anchored on tests/data/dynamic.vhd"]),
-    "C05": dict(engine="disk", level="exploration", quick=6000, thorough=300000, rule=_DISK_RULE,
+    "C05": dict(engine="disk", level="exploration", quick=20000, thorough=300000, rule=_DISK_RULE,
                 expected_probes=["vdi.multi_block_request_permuted", "vdi.zero_block", "vdi.unallocated_block"],
                 assumptions=["VDI layout per VirtualBox VDICore.h (no fixture in the repo)"]),
-    "C06": dict(engine="disk", level="exploration", quick=6000, thorough=300000, rule=_DISK_RULE,
+    "C06": dict(engine="disk", level="exploration", quick=20000, thorough=300000, rule=_DISK_RULE,
                 expected_probes=["hds.alloc_offset_equals_preceding_sparse_run", "hds.v1_units", "hds.v2_units", "hds.plain"],
                 assumptions=["HDS layout per ploop1_image.h / qemu parallels.txt; stub anchored on tests/data/expanding.hdd"]),
 }
 
 PROPS["C08"] = dict(
-    engine="history", level="exploration", quick=2500, thorough=120000,
+    engine="history", level="exploration", quick=6000, thorough=120000,
     rule=("one evaluation = one seeded access history (10-400 ops of seek/read/readinto/peek/readoffset/readall/tell/"
           "read_sectors over 1-2 stream objects) replayed under two stream buffer sizes on one image (stub image of any "
           "format, or one of the repo's real samples); oracle = length/position contract + single-array consistency of "
@@ -50,7 +50,7 @@ PROPS["C08"] = dict(
 )
 
 PROPS["C07"] = dict(
-    engine="chains", level="exploration", quick=2500, thorough=120000,
+    engine="chains", level="exploration", quick=12000, thorough=120000,
     rule=("one evaluation = one seeded layered writer history (2-6 layers; VHDX differencing, VMDK delta extents via descriptors "
           "or embedded descriptors, Parallels snapshot chains, QCOW2 backing chains and internal snapshots, VDI parents) rendered "
           "on the simulated namespace in one of five parent-location configurations, optionally with a namespace fault on an "
@@ -65,7 +65,7 @@ PROPS["C07"] = dict(
 )
 
 PROPS["C10"] = dict(
-    engine="extents", level="exploration", quick=3000, thorough=150000,
+    engine="extents", level="exploration", quick=12000, thorough=150000,
     rule=("one evaluation = one seeded directory on the simulated namespace: a VMDK descriptor naming 1-8 extents (FLAT, VMFS, "
           "SPARSE incl. stream-optimised, VMFSSPARSE, SESPARSE; names with spaces/unicode; flat file offsets), or an explicit list "
           "of extent handles, or a Parallels .hdd with several storages listed in any order; each extent has its own writer "
@@ -92,7 +92,7 @@ PROPS["C13"] = dict(
 )
 
 PROPS["C14"] = dict(
-    engine="meta", level="exploration", quick=4000, thorough=200000,
+    engine="meta", level="exploration", quick=12000, thorough=200000,
     rule=("one evaluation = one seeded metadata-rich image (QCOW2 extensions/backing name/snapshot table; VHDX metadata items, "
           "parent locator and dual headers with a stale slot; VMDK embedded or standalone descriptor with ddb entries and extent "
           "lines; VHD footer/dynamic header; VDI header; Parallels descriptor with storages, images, shots, TopGUID) opened by "
@@ -108,7 +108,7 @@ PROPS["C14"] = dict(
 )
 
 PROPS["C09"] = dict(
-    engine="monitor", level="exploration", quick=2500, thorough=120000,
+    engine="monitor", level="exploration", quick=8000, thorough=120000,
     rule=("one evaluation = one seeded workload on the simulated namespace (disk open+reads of every format by handle and by path, "
           "chains, multi-extent descriptors, the repo's real samples, all HDD._open_image candidate branches, vmtar by name and by "
           "file object, Envelope/KeyStore, the envelope-decrypt CLI with a declared --output, HyperVFile, VMX/OVF/VBox/PVS/"
@@ -196,7 +196,7 @@ PROPS["C16"] = dict(
 )
 
 PROPS["C17"] = dict(
-    engine="storesim", level="exploration", quick=1500, thorough=80000,
+    engine="storesim", level="exploration", quick=4000, thorough=80000,
     rule=("one evaluation = one seeded history of store operations (set of typed values incl. strings/arrays on both sides of 0x800 "
           "bytes, delete, table rewrite, header flip) executed by the stub store writer as a log of device writes (copy-on-write "
           "key tables: new object with sequence+1, registration = commit, optional release of the old object), decoded by the real "
